@@ -9,7 +9,7 @@ import serverlib as sl
 
 
 def acl_gen(r, thorough):
-    return sl.acl_histories(r, thorough, types=("read", "publish")) + sl.kick_histories(r, thorough) + sl.failed_event_histories(r, thorough) + sl.two_list_histories(r, thorough)
+    return sl.acl_histories(r, thorough, types=("read", "publish")) + sl.kick_histories(r, thorough) + sl.failed_event_histories(r, thorough) + sl.two_list_histories(r, thorough) + __import__('c05').parked_join_histories(r, thorough)
 
 
 def run(tier, replay=None):
